@@ -1,6 +1,7 @@
 """Check context: obligations (premise instances), verdicts, evidence, known findings."""
 import json
 import os
+import re
 import sys
 import time
 
@@ -13,6 +14,8 @@ class Ob:
     __slots__ = ("rule", "key", "desc", "site", "status", "how", "nontrivial")
 
     def __init__(self, rule, key, desc, site, status, how, nontrivial):
+        # keys must be position-free: closure types print as {closure@file:line:col}
+        key = re.sub(r"\{closure@[^}]*\}", "{closure}", str(key))
         self.rule, self.key, self.desc, self.site = rule, key, desc, site
         self.status, self.how, self.nontrivial = status, how, nontrivial
 
